@@ -8,6 +8,11 @@ Layered: `authenticate` / `HandleHandshake` (outcome `AOut`), `registryUpdate` /
 namespace Tunnox.C03
 open Gen
 
+/-- T1b tie: the predicate translated from `ClientConfig.IsExpired` is the property's notion of "expired" -/
+theorem isExpired_eq (now : Nat) (c : ClientConfigT) : models.ClientConfig.IsExpired now c = expiredAt now c := by
+  cases h : c.ExpiresAt <;>
+    simp [models.ClientConfig.IsExpired, expiredAt, h, PredPrelude.timeAfter, PredPrelude.TimeLike.toTime]
+
 def pairOf : Option Ctl → Bool × Option Nat
   | none => (false, none)
   | some o => (o.auth, o.id)
@@ -107,7 +112,7 @@ theorem authenticate_spec (s : Srv) (c : Nat) (req : Req) :
                   · intro c' hc; simp [setCtl, recordSuccess, upd_other _ _ _ _ hc]
                   · refine AOut.ok k n rfl rfl rfl hf hkk hlt.1 ?_ hv.2 hn (by simp [setCtl, recordSuccess])
                     simp only [flagsOK, Bool.and_eq_true, Bool.not_eq_true']
-                    exact ⟨⟨by simpa using hexp, hlt.2⟩, by simp only [beq_iff_eq]; exact hv.1⟩
+                    exact ⟨⟨by rw [← isExpired_eq]; simpa using hexp, hlt.2⟩, by simp only [beq_iff_eq]; exact hv.1⟩
                 · exact absurd hk (by simp)
 
 theorem SameFrame.trans {s t u : Srv} (h1 : SameFrame s t) (h2 : SameFrame t u) : SameFrame s u := by
